@@ -36,8 +36,10 @@ Walk(steps, k, prev, acc, mut) ==
              shape == IF Len(st.obs) # Len(prev) + 1 \/ ((st.res = "new") # (st.obs[Len(st.obs)] # "-"))
                       THEN {<<k, 0, "store-shape">>} ELSE {}
              isdup == st.l \in {"copy", "deepcopy", "pickle"}
+             \* wrap#* labels pass the receiver itself to a new statement: the automatic alias it may be given there is the permitted side effect
+             argrecv == st.l \in {"wrap#from", "wrap#join", "wrap#in"}
              same == IF st.res = "same" /\ (~mut \/ isdup) THEN {<<k, st.r, "returned-receiver">>} ELSE {}
-             moved == {<<k, v, "changed">> : v \in {x \in 1..Len(prev) : x <= Len(st.obs) /\ st.obs[x] # prev[x] /\ (~mut \/ isdup \/ x # st.r)}}
+             moved == {<<k, v, "changed">> : v \in {x \in 1..Len(prev) : x <= Len(st.obs) /\ st.obs[x] # prev[x] /\ (~mut \/ isdup \/ x # st.r) /\ ~(argrecv /\ x = st.r)}}
              \* C15: a duplication step never raises and its result is observed exactly like its original
              dupbad == IF st.l \notin {"copy", "deepcopy", "pickle"} \/ st.res = "skip" THEN {}
                        ELSE IF st.res # "new" THEN {<<k, st.r, "dup-raises">>}
